@@ -33,7 +33,7 @@ func init() {
 			{Run: "R2", Scope: []string{"csync", "broadcast"}, Rules: []string{"R2d"}, Prefixes: []string{"csync."}},
 		},
 		Floors:      map[string]int{"R12": 24, "R16": 5, "R1a": 5},
-		Explanation: "csync: every grant write (locked/writing = true, nreaders++) is implied, inside its own critical section, by the availability condition the property states; every un-grant write happens only under 'this call's status word was 1' / 'first call of the release function' and in the mode of the grant; Lock/TryLock report success only with status 1 and after a grant write on the same path, and report failure only on paths without a grant; release functions and MutexLocker.Unlock start with an atomic test-and-set; the guarded fields are touched only under the lock (R1a)." + structural,
+		Explanation: "csync: every grant write (locked/writing = true, nreaders++) is implied, inside its own critical section, by the availability condition the property states; every un-grant write happens only under 'this call's status word was 1' / 'first call of the release function' and in the mode of the grant; Lock/TryLock report success only with status 1 and after a grant write on the same path, and report failure only on paths without a grant; release functions and MutexLocker.Unlock start with an atomic test-and-set; the guarded fields are touched only under the lock (R1a). No position computed from the guarded bookkeeping (a length, an index) in one critical section is used as an index or bound in a later section of the same lock (R1e)." + structural,
 		NotDecided:  "fairness, timing, and the one-instance-per-method assumption A1; the exclusion itself is an inductive consequence of these per-path conditions and is not established as a theorem here.",
 		Assumptions: []string{A1, A2, A3},
 		Technique:   "guarded-effect analysis (path conditions vs required guard, truth tables over canonical atoms) + static lockset",
@@ -62,7 +62,7 @@ func init() {
 			{Run: "R17", Scope: []string{"broadcast"}, Rules: []string{"R17", "R2f"}},
 		},
 		Floors:      map[string]int{"R2e": 5, "R2d": 40, "R2a": 1, "R2c": 1, "R1a": 1, "R17": 2},
-		Explanation: "Inside Broadcast: ch is created, closed and cleared only under mtx (R1a); broadcast closes the current channel and forgets it in the same section, getWaitCh hands out a non-nil channel that is the field the next broadcast closes, and all three HoldLock variants run the callback with the mutex held (R2e, R11a). Wait samples its predicate and subscribes in one section, re-samples only after a received wake-up, returns context.Canceled only after its context fired (R2a, R2c, R17). No section callback in the library lets broadcast/getWaitCh escape its section (R2d, all HoldLock call sites)." + structural,
+		Explanation: "Inside Broadcast: ch is created, closed and cleared only under mtx (R1a); broadcast closes the current channel and forgets it in the same section, getWaitCh hands out a non-nil channel that is the field the next broadcast closes, and all three HoldLock variants run the callback with the mutex held (R2e, R11a). Wait samples its predicate and subscribes in one section, re-samples only after a received wake-up, returns context.Canceled only after its context fired (R2a, R2c, R17). No section callback in the library lets broadcast/getWaitCh escape its section (R2d, all HoldLock call sites). Wait hands its predicate the broadcast/getWaitCh of the section it runs in." + structural,
 		NotDecided:  "behaviour of client predicates; scheduling latency.",
 		Assumptions: []string{A3, A4},
 		Technique:   "typestate/shape rules on Broadcast + waiter discipline + static lockset",
@@ -91,7 +91,7 @@ func init() {
 			{Run: "R2", Scope: []string{"routine", "broadcast"}, Rules: []string{"R2d"}, Prefixes: []string{"routine."}},
 		},
 		Floors:      map[string]int{"R4": 3, "R12": 5, "R1a": 12, "R5b": 2},
-		Explanation: "Every supersession path cancels the old instance first (slot cleared/overwritten, context changed, new instance spawned); the new instance's context derives from the ctx handed to start, which at every call site is the container's current context; start resets the exit status; the retry timer restarts only a record that is still the registered one, has exited and has a context, under the lock (a superseded routine is not resurrected); all container and record fields, including the state of StateRoutineContainer, are accessed under RoutineContainer.bcast only (R1a) — the static form of 'also under concurrent calls'." + structural,
+		Explanation: "Every supersession path cancels the old instance first (slot cleared/overwritten, context changed, new instance spawned); the new instance's context derives from the ctx handed to start, which at every call site is the container's current context; start resets the exit status; the retry timer restarts only a record that is still the registered one, has exited and has a context, under the lock (a superseded routine is not resurrected); all container and record fields, including the state of StateRoutineContainer, are accessed under RoutineContainer.bcast only (R1a) — the static form of 'also under concurrent calls'. An instance whose routine returned calls its own cancel func on every path." + structural,
 		NotDecided:  "the quiescent-state claim as a statement over histories; 'most recently stored state' beyond the fact that state and routine are replaced in one critical section.",
 		Assumptions: []string{A1, A3, A4},
 		Technique:   "cancel-before-supersede must-precede analysis + static lockset",
@@ -106,7 +106,7 @@ func init() {
 			{Run: "R1", Scope: []string{"keyed"}, Rules: []string{"R11"}},
 		},
 		Floors:      map[string]int{"R6b": 2, "R16": 2, "R12": 4, "R5b": 2},
-		Explanation: "Necessary conditions only: SetKey and SyncKeys cancel a pending delayed removal of a record they keep; the delayed-removal callback re-validates registration and the pending flag under the lock; remove() deletes at once exactly when there is no delay or the routine failed; AddKeyRef inserts and registers under one lock; Release removes the key exactly when the last reference goes and is idempotent; RemoveKey marks references released; routines/refs are accessed under their mutex. The static form of concurrent use: the fields the mechanism uses are accessed only under its lock, and every lock acquired is released on every path (R1a, R11)." + structural,
+		Explanation: "Necessary conditions only: SetKey and SyncKeys cancel a pending delayed removal of a record they keep; the delayed-removal callback re-validates registration and the pending flag under the lock; remove() deletes at once exactly when there is no delay or the routine failed; AddKeyRef inserts and registers under one lock; Release removes the key exactly when the last reference goes and is idempotent; RemoveKey marks references released; routines/refs are accessed under their mutex. The static form of concurrent use: the fields the mechanism uses are accessed only under its lock, and every lock acquired is released on every path (R1a, R11). SyncKeys scans the slot for removals on every returning path; the map fields are constructed non-nil (R18)." + structural,
 		NotDecided:  "that the reported key set and every return value equal the reference model after every history (a statement about values over histories); timer expiry times.",
 		Assumptions: []string{A1, A3, A5},
 		Technique:   "sibling-agreement and guarded-effect rules on paths",
@@ -121,7 +121,7 @@ func init() {
 			{Run: "R1", Scope: []string{"keyed"}, Rules: []string{"R1a", "R11"}},
 		},
 		Floors:      map[string]int{"R3a": 2, "R3b": 6, "R3c": 1, "R3d": 1, "R4": 3, "R5c": 3, "R5b": 2},
-		Explanation: "Exit-channel chain for keyed routines (R3a-d); the cancel func of a record is called before the key is deleted, before its slot is overwritten and when the root context changes (R4); the retry timer callback restarts only a still-registered, exited record with a context, and the exit bookkeeping arms the retry exactly when the instance failed while registered with retry configured (R5b/c); no API path stops a retry timer without starting, detaching or re-arming the record (R5a). The static form of concurrent use: the fields the mechanism uses are accessed only under its lock, and every lock acquired is released on every path (R1a, R11)." + structural,
+		Explanation: "Exit-channel chain for keyed routines (R3a-d); the cancel func of a record is called before the key is deleted, before its slot is overwritten and when the root context changes (R4); the retry timer callback restarts only a still-registered, exited record with a context, and the exit bookkeeping arms the retry exactly when the instance failed while registered with retry configured (R5b/c); no API path stops a retry timer without starting, detaching or re-arming the record (R5a). The static form of concurrent use: the fields the mechanism uses are accessed only under its lock, and every lock acquired is released on every path (R1a, R11). The retry timer restarts exactly when context, registration and exit hold; the retry back-off is reset nowhere but on the exit path of a successful current instance; a recorded success is cleared only inside a forced start." + structural,
 		NotDecided:  "retry timing (back-off values); liveness of Go timers.",
 		Assumptions: []string{A1, A3, A4, A5},
 		Technique:   "exit-channel-chain analysis + timer/cancel obligations on paths",
@@ -152,7 +152,7 @@ func init() {
 			{Run: "R1", Scope: []string{"refcount"}, Rules: []string{"R1a"}, Prefixes: []string{"refcount.RefCount"}},
 		},
 		Floors:      map[string]int{"R3a": 2, "R3c": 1, "R6a": 1, "R12": 4},
-		Explanation: "One resolver at a time: resolve waits for the previous resolver before it calls the resolver and before it closes its done channel; startResolveLocked hands over a fresh channel and the previous one (R3). released() restarts exactly when the generation is unchanged, under the lock, taken with TryLock or from a goroutine (no re-acquisition of a held lock, acyclic lock order: R11). Late references get the current value under the lock; Ref.cb is nil-tested at every call site (documented nil callback). The static form of concurrent use: the fields the mechanism uses are accessed only under its lock, and every lock acquired is released on every path (R1a, R11)." + structural,
+		Explanation: "One resolver at a time: resolve waits for the previous resolver before it calls the resolver and before it closes its done channel; startResolveLocked hands over a fresh channel and the previous one (R3). released() restarts exactly when the generation is unchanged, under the lock, taken with TryLock or from a goroutine (no re-acquisition of a held lock, acyclic lock order: R11). Late references get the current value under the lock; Ref.cb is nil-tested at every call site (documented nil callback). The static form of concurrent use: the fields the mechanism uses are accessed only under its lock, and every lock acquired is released on every path (R1a, R11). A path that drops a resolved error also empties the error container, or has shown there is none." + structural,
 		NotDecided:  "progress as such ('a resolver call is in progress or its result delivered' at quiescent points) — needs histories.",
 		Assumptions: []string{A1, A3, A4},
 		Technique:   "exit-channel-chain analysis + nil-guard agreement + lock-order/self-deadlock analysis",
@@ -183,7 +183,7 @@ func init() {
 			{Run: "R1", Scope: []string{"promise"}, Rules: []string{"R1a", "R1d"}, Prefixes: []string{"promise.Promise", "promise.PromiseContainer"}},
 		},
 		Floors:      map[string]int{"R9": 8, "R2a": 3, "R2b": 2, "R2c": 3, "R1d": 2},
-		Explanation: "Promise.SetResult stores the result and closes done only after winning isDone.Swap(true) and returns true exactly there; the result fields are read only behind a receive from done (R1d); each Await* is one blocking select whose done arm alone returns the result; PromiseContainer awaiters sample the promise with their subscription, are woken by every replacement (SetPromise/SetResult broadcast on change), re-sample only after a consumed wake-up — including when the result's error is context.Canceled — and return context.Canceled only when their context fired; every blocking site listens to the context and to the error/cancel channel (R2f); a method is called on the sampled promise only after a nil test of that sample; every function that closes done also sets isDone (pre-resolved promises refuse a later SetResult)." + structural,
+		Explanation: "Promise.SetResult stores the result and closes done only after winning isDone.Swap(true) and returns true exactly there; the result fields are read only behind a receive from done (R1d); each Await* is one blocking select whose done arm alone returns the result; PromiseContainer awaiters sample the promise with their subscription, are woken by every replacement (SetPromise/SetResult broadcast on change), re-sample only after a consumed wake-up — including when the result's error is context.Canceled — and return context.Canceled only when their context fired; every blocking site listens to the context and to the error/cancel channel (R2f); a method is called on the sampled promise only after a nil test of that sample; every function that closes done also sets isDone (pre-resolved promises refuse a later SetResult). An error produced by awaiting the sampled promise is returned with the value of that same await; between the last wait and a successful return the waiter enters the lock once." + structural,
 		NotDecided:  "that awaiters are scheduled; CPU time as a quantity; whether a nil value received from an error channel should end an await (the three promise awaiters return it; not claimed either way).",
 		Assumptions: []string{A3},
 		Technique:   "single-assignment/publication rules + waiter discipline + interruption-source coverage",
@@ -195,7 +195,7 @@ func init() {
 			{Run: "R1", Scope: []string{"cqueue", "linkedlist"}, Rules: []string{"R1a", "R11a"}},
 		},
 		Floors:      map[string]int{"R10": 15, "R1a": 3},
-		Explanation: "Only the shape conditions of the standard proofs: AtomicLIFO.Push/Pop load top afresh in every attempt, link/read next from that load in the same iteration, CAS against it, leave only on CAS success (or an empty load) and never write a node after publishing it; every exported LinkedList method is exactly one write-mode critical section containing all its list accesses (one atomic step of the sequential deque)." + structural,
+		Explanation: "Only the shape conditions of the standard proofs: AtomicLIFO.Push/Pop load top afresh in every attempt, link/read next from that load in the same iteration, CAS against it, leave only on CAS success (or an empty load) and never write a node after publishing it; every exported LinkedList method is exactly one write-mode critical section containing all its list accesses (one atomic step of the sequential deque). In each attempt Pop finds the node it loaded for that attempt non-nil before it reads next from it." + structural,
 		NotDecided:  "linearizability itself, LIFO/FIFO order and element conservation are statements about concurrent histories and are NOT decided by static analysis; a green run certifies the shape conditions without which the Treiber/critical-section arguments do not go through, nothing more.",
 		Assumptions: []string{A3},
 		Technique:   "lock-free loop shape rule (fresh load / CAS on loaded value / link before CAS) + single-section rule",
@@ -210,7 +210,7 @@ func init() {
 			{Run: "R2", Rules: []string{"R2d"}},
 		},
 		Floors:      map[string]int{"R1a": 60, "R1b": 12, "R1c": 2, "R1d": 4, "R1a-opt": 1, "R1ssa": 2},
-		Explanation: "Static lockset analysis (R1) over the 14 packages of the concurrency-safe types: for every struct field and every local captured by an escaping closure, all non-construction accesses reached from any entry point hold a common lock, or the variable is never written, atomic, or published by an atomic election followed by a channel close (R1d); callback fields are invoked under their contract lock (R1c); option callbacks run on freshly constructed containers (R1a-opt); every acquired lock is released on every non-panicking path (R11a). Cross-check (R1ssa): every field-access instruction that go/ssa builds for these packages (generic methods and closures included) is matched by an access R1 analysed in some calling context, so the access set the verdict rests on is complete with respect to the compiler's own IR.",
+		Explanation: "Static lockset analysis (R1) over the 14 packages of the concurrency-safe types: for every struct field and every local captured by an escaping closure, all non-construction accesses reached from any entry point hold a common lock, or the variable is never written, atomic, or published by an atomic election followed by a channel close (R1d); callback fields are invoked under their contract lock (R1c); option callbacks run on freshly constructed containers (R1a-opt); every acquired lock is released on every non-panicking path (R11a). Cross-check (R1ssa): every field-access instruction that go/ssa builds for these packages (generic methods and closures included) is matched by an access R1 analysed in some calling context, so the access set the verdict rests on is complete with respect to the compiler's own IR. No section callback lets broadcast/getWaitCh escape its section (R2d); no position computed from guarded state in one section is used as an index in a later section of the same lock (R1e).",
 		NotDecided:  "races on memory the library reaches only through client values of type T; instance confusion excluded by A1; internals of third-party packages; anything in _test.go files.",
 		Assumptions: []string{A1, A3, A4, A5},
 		Technique:   "static lockset analysis (per-variable consistent lockset, top-down lockset propagation over resolved calls, AST path walker)",
@@ -225,7 +225,7 @@ func init() {
 			{Run: "R1", Scope: []string{"routine"}, Rules: []string{"R1a"}, Prefixes: []string{"routine.runningRoutine.", "routine.RoutineContainer."}},
 		},
 		Floors:      map[string]int{"R12": 12, "R5b": 2, "R5c": 3, "R2a": 1, "R2b": 8, "R17": 3, "R1a": 10},
-		Explanation: "A nil-returning routine is spawned again only under forceRestart, which is a constant at every call site and true only in restartRoutineLocked and the retry timer; SetContext restarts errored routines only with restart; exit status, exit callbacks and retry arming happen only for the still-current instance (r.ctx == ctx) under the lock; the retry timer is armed exactly when retry is configured, the exit failed, the record is registered and the back-off is not Stop, and success resets the back-off; the timer restarts only a registered, exited record; no API path stops a pending retry without (re)starting, detaching or re-arming. WaitExited samples the current record in its subscribing section, is woken by every status change, and returns an error-channel value only when it is an error. The exit callbacks are handed the value the routine returned (not a field read later); the status fields are accessed under the container lock only (R1a); WithRetry constructs its back-off inside the option, once per container." + structural,
+		Explanation: "A nil-returning routine is spawned again only under forceRestart, which is a constant at every call site and true only in restartRoutineLocked and the retry timer; SetContext restarts errored routines only with restart; exit status, exit callbacks and retry arming happen only for the still-current instance (r.ctx == ctx) under the lock; the retry timer is armed exactly when retry is configured, the exit failed, the record is registered and the back-off is not Stop, and success resets the back-off; the timer restarts only a registered, exited record; no API path stops a pending retry without (re)starting, detaching or re-arming. WaitExited samples the current record in its subscribing section, is woken by every status change, and returns an error-channel value only when it is an error. The exit callbacks are handed the value the routine returned (not a field read later); the status fields are accessed under the container lock only (R1a); WithRetry constructs its back-off inside the option, once per container. The retry back-off is reset nowhere in the package but on the exit path of a successful current instance; a recorded success is cleared only inside a start whose forceRestart argument is the constant true, or where the path has shown the flag false (so stop, SetContext and ClearContext cannot make a completed routine runnable again)." + structural,
 		NotDecided:  "run counts and the correspondence with a reference state machine over histories; which routine object WaitExited's condition refers to (identity; nil-ness of ctx and routine IS decided by R2b); back-off values.",
 		Assumptions: []string{A1, A2, A3, A4, A5},
 		Technique:   "guarded-effect analysis with iff-guards, who-may-pass-constant check, waiter discipline",
@@ -239,7 +239,7 @@ func init() {
 			{Run: "R1", Scope: []string{"ccontainer"}, Rules: []string{"R1a"}},
 		},
 		Floors:      map[string]int{"R12": 5, "R2a": 1, "R2b": 2, "R2c": 1, "R17": 3, "R1a": 1},
-		Explanation: "val is accessed only inside the container's critical sections; SwapValue reads, calls the callback and stores in one section; every store of the cell broadcasts; WaitValueWithValidator validates and returns the value sampled with its subscription, re-samples only after a consumed event, returns the context's error only in the ctx arm and an error-channel value only when it is a non-nil error; the Wait* wrappers delegate to it." + structural,
+		Explanation: "val is accessed only inside the container's critical sections; SwapValue reads, calls the callback and stores in one section; every store of the cell broadcasts; WaitValueWithValidator validates and returns the value sampled with its subscription, re-samples only after a consumed event, returns the context's error only in the ctx arm and an error-channel value only when it is a non-nil error; the Wait* wrappers delegate to it. Between its last wait and a successful return the waiter enters the lock once (the returned value is the validated sample); SwapValue returns the cell value read in its section or what the callback made of it." + structural,
 		NotDecided:  "custom equal functions that are not equivalences; validator side effects.",
 		Assumptions: []string{A1, A3, A4},
 		Technique:   "waiter discipline + same-section read-modify-write rule + static lockset",
@@ -253,7 +253,7 @@ func init() {
 			{Run: "R1", Scope: []string{"promise"}, Rules: []string{"R11a", "R11c"}},
 		},
 		Floors:      map[string]int{"R8": 9, "R1a": 1},
-		Explanation: "Once: the callback goroutine is spawned only under o.prom == nil in the section that stores the new promise; o.prom is cleared only by the callback goroutine, under the lock, the identity test and the callback's own non-nil error, after the callback returned; every path of the goroutine completes the promise; every trip around Resolve's loop tests the caller's context, which is the only source of its context.Canceled. MemoizeFunc: fn is called only by the winner of started.Swap(true) with close(done) deferred first; the other callers read the result behind <-done (R1d). The static form of concurrent use: the fields the mechanism uses are accessed only under its lock, and every lock acquired is released on every path (R1a, R11)." + structural,
+		Explanation: "Once: the callback goroutine is spawned only under o.prom == nil in the section that stores the new promise; o.prom is cleared only by the callback goroutine, under the lock, the identity test and the callback's own non-nil error, after the callback returned; every path of the goroutine completes the promise; every trip around Resolve's loop tests the caller's context, which is the only source of its context.Canceled. MemoizeFunc: fn is called only by the winner of started.Swap(true) with close(done) deferred first; the other callers read the result behind <-done (R1d). The static form of concurrent use: the fields the mechanism uses are accessed only under its lock, and every lock acquired is released on every path (R1a, R11). Every completion of the promise that may carry an error happens after the promise was removed from the Once; Promise.Await, whose error Resolve compares with context.Canceled, returns that literal from its ctx arm." + structural,
 		NotDecided:  "'every caller receives that call's result' as a value statement; that the callback terminates.",
 		Assumptions: []string{A3, A4},
 		Technique:   "single-flight election rules (guards with definition provenance) + publication idiom",
@@ -267,7 +267,7 @@ func init() {
 			{Run: "R17", Scope: []string{"ccall"}, Rules: []string{"R17", "R2f"}},
 		},
 		Floors:      map[string]int{"R13a": 3, "R12": 3, "R6a": 2, "R1b": 3, "R2a": 1},
-		Explanation: "All state shared with the workers (running, exitErr) is accessed under the local Broadcast only — in particular the 'nothing was started' decision (R1b); each worker decrements running exactly once in a section that records the error and broadcasts; a real error replaces nil or context.Canceled and nothing else; each spawn is counted and nil-tested, including the single-function fast path; the waiting loop returns the error it sampled under the lock; the sub-context's cancel is deferred before anything runs; context.Canceled is returned only from the ctx.Done() arm." + structural,
+		Explanation: "All state shared with the workers (running, exitErr) is accessed under the local Broadcast only — in particular the 'nothing was started' decision (R1b); each worker decrements running exactly once in a section that records the error and broadcasts; a real error replaces nil or context.Canceled and nothing else; each spawn is counted and nil-tested, including the single-function fast path; the waiting loop returns the error it sampled under the lock; the sub-context's cancel is deferred before anything runs; context.Canceled is returned only from the ctx.Done() arm. The waiting loop returns while functions still run only for an error that is neither nil nor context.Canceled." + structural,
 		NotDecided:  "which of several errors is returned.",
 		Assumptions: []string{A3, A4},
 		Technique:   "balance/exactly-once rules + iff-guard on the error merge + static lockset of shared locals",
@@ -304,7 +304,7 @@ func init() {
 			{Run: "Gmapinit", Scope: []string{"unique"}},
 		},
 		Floors:      map[string]int{"R15": 20, "R13c": 3, "R1a": 4, "R18": 4},
-		Explanation: "Shape conditions: ioseek stores a new offset exactly when it is in range and never before an error return, Read advances by the returned count on every path; iosizer adds exactly the positive count it returns; iocloser.Close detaches stream and close function under the lock on every path and calls the saved function outside it under a nil test, Read/Write use the stream only under the lock after a nil test; ioproxy starts two swapped pumps, each closing both ends and calling back once; unique performs per input value exactly one store/delete with one matching notification, or none after the comparison/absence test.",
+		Explanation: "Shape conditions: ioseek stores a new offset exactly when it is in range and never before an error return, Read advances by the returned count on every path; iosizer adds exactly the positive count it returns; iocloser.Close detaches stream and close function under the lock on every path and calls the saved function outside it under a nil test, Read/Write use the stream only under the lock after a nil test; ioproxy starts two swapped pumps, each closing both ends and calling back once; unique performs per input value exactly one store/delete with one matching notification, or none after the comparison/absence test. The map fields of unique's containers are constructed non-nil on every path (R18).",
 		NotDecided:  "VALUE SEMANTICS ARE NOT DECIDED: equivalence with a section reader, byte order through io.CopyBuffer, replay equality of notifications, 'latest set that differed'.",
 		Assumptions: []string{A5},
 		Technique:   "per-path shape rules (iff-guards, must-assign, exactly-once sinks)",
